@@ -65,7 +65,7 @@ pub assume_specification [std::string::String::as_bytes] (s: &std::string::Strin
 // R9: str::len is the byte length
 #[verifier::external_body]
 pub fn str_len(s: &str) -> (r: usize)
-    ensures r == s.spec_bytes().len()
+    ensures r == s.spec_bytes().len(), (r == 0) == (s@.len() == 0)
 { s.len() }
 
 #[verifier::external_body]
